@@ -93,7 +93,7 @@ def run_views(chk, model, cases, suite):
                 matched = got[0] == 0 and got[1]
                 chk.hist("match", "raise-%d" % got[1] if got[0] else ("match" if got[1] else "none"))
                 if matched:
-                    d = ml.mk(side).match(path)
+                    d = {common.l2s(k): (common.l2s(v[0]) if v else None) for k, v in got[1][0]}
                     if not any("*" in v for _, v in side[1]) and not any(
                             k.startswith("s") and k[1:].isdigit() for k, _ in side[1]):
                         ml.check_kinds(chk, side, path, d, kind)
@@ -101,7 +101,9 @@ def run_views(chk, model, cases, suite):
                 if not grammar:
                     continue
                 if kind == "filled":
-                    d = ml.mk(side).match(path)
+                    okm, d = ml.try_match(chk, side, path, "expansion-not-matched")
+                    if not okm:
+                        continue
                     want = {"s%d" % (i + 1): f for i, f in enumerate(c.fills)}
                     for a in atoms:
                         if a[0] == "V":
@@ -178,7 +180,9 @@ def run_expand(chk, model):
             if full is not None and not odd and not ml.reuses_nested_variable(atoms, env) \
                     and not any(n in env.resolved for n in ("1a",)):
                 # fully bound: the matcher matches its own expansion and returns the bindings
-                d = ml.mk(side).match(path)
+                okm, d = ml.try_match(chk, side, path, "expansion-not-matched")
+                if not okm:
+                    continue
                 want = {a[1]: env.resolved[a[1]] for a in atoms if a[0] == "V"}
                 if any(a[0] == "A" for a in atoms):
                     want["android_locale"] = ml.LOCALES[env.resolved["locale"]]
@@ -249,8 +253,15 @@ def run_android(chk, model):
     for lang, script, region in cases:
         l = "-".join(x for x in (lang, script, region) if x)
         chk.count(("android", l))
-        a = to_android_impl(l)
-        back = to_bcp47_impl(a)
+        try:
+            a = to_android_impl(l)
+            back = to_bcp47_impl(a)
+        except Exception as e:  # noqa
+            chk.fail("android-roundtrip-raised", {"locale": l}, repr(e))
+            desc.append(l)
+            impl.append([2, canon(type(e).__name__)])
+            reqs.append((6, [canon(l)]))
+            continue
         chk.hist("android_shape", ("script" if script else "") + ("region" if region else "") or "bare")
         desc.append(l)
         impl.append([[0, canon(a)], [0, canon(back)]])
@@ -263,8 +274,9 @@ def run_android(chk, model):
             chk.fail("android-qualifier-wrong", {"locale": l}, {"got": a, "expected": want})
         if back != l:
             chk.fail("android-roundtrip", {"locale": l}, {"android": a, "back": back})
-    chk.sample({"suite": "ANDROID-LOCALE", "locale": "he-Latn-IL", "android": to_android_impl("he-Latn-IL"),
-                "back": to_bcp47_impl(to_android_impl("he-Latn-IL"))})
+    chk.sample({"suite": "ANDROID-LOCALE", "locale": "he-Latn-IL",
+                "android_and_back": ml.impl_result(lambda: [to_android_impl("he-Latn-IL"), to_bcp47_impl(
+                    to_android_impl("he-Latn-IL"))])})
     for l in odd:
         chk.count(("android-odd", l))
         desc.append(l)
@@ -355,8 +367,11 @@ def run_mozpath(chk, model):
         gi = []
         for pat in gpats:
             mozpath.match("x", pat)
-            ast, _ = ml.rx2coq.parse(mozpath.re_cache[pat].pattern, 0)
-            gi.append([0, ml.rx2coq.to_sx(ast)])
+            try:
+                ast, _ = ml.rx2coq.parse(mozpath.re_cache[pat].pattern, 0)
+                gi.append([0, ml.rx2coq.to_sx(ast)])
+            except ml.rx2coq.Unsupported as e:
+                gi.append([2, canon(str(e))])
         outs = model.call([(9, [canon(p)]) for p in gpats])
         chk.correspond("GLOB-REGEX", gpats, gi, outs)
 
